@@ -58,6 +58,10 @@ template <Kind K, class E, size_t SP> void regMap(const std::string& key) {
         return "ok e=" + extList(d.extents()) + " s=" + list(s0) + " span=" + num(static_cast<I0>(d.required_span_size()));
       } else return "no-op";
     }
+    if (o.op == "dfltoff") {
+      if constexpr (std::is_default_constructible_v<M0>) { M0 d{}; using I0 = typename M0::index_type; return ok<I0>(static_cast<I0>(callMap(d, o.arg))); }
+      else return "no-op";
+    }
     auto m = makeMap<K, E, SP>(o);
     using M = decltype(m);
     if (o.op == "stridesarr") {
